@@ -29,9 +29,20 @@ Proved for ALL inputs (no size bound):
   `depLoop_inv`, `getDeps_inv`, `go_inv`          every pick anywhere in the dependency resolution is a member;
   `relock_fixpoint_partial`      universes without provides / install_if, closed set with unique (name, version):
                                  every successful re-resolution of a lock returns exactly the locked set;
-  `F09a_witness`, `not_RelockFixpoint`            the full statement is FALSE (pin lost in the lock).
-  Not proved: that the re-resolution succeeds, and the fixpoint in the presence of provides (virtuals); there the
-  check relies on the round-trip oracle evaluated on every Go output (classes F09a–F09h).
+  `F09a_witness`, `not_RelockFixpoint`            the full statement is FALSE (pin lost in the lock);
+  `relock_succeeds_partial`      same territory: the re-resolution SUCCEEDS when the lock keeps the pins (not F09a),
+                                 versions parse (not F09e), (name, version) is unique (not F09d), no `!x` dependency is
+                                 violated (not F09f) and dependency version texts parse (not F09l) — lemmas in
+                                 Proofs/Lemmas/RelockSucc.lean / RelockTop.lean (invariant: members free, selected and
+                                 existing member-valued; no step answers `.err`; `C02.resolve_total` for the fuel);
+  `relock_exact_partial`         succeeds AND returns exactly the locked set;
+  `F09a_needed`, `F09d_needed`, `F09e_needed`, `F09f_conflict_needed`, `depAnyJunk_witness`
+                                 every side condition is needed: all other hypotheses hold and the round trip fails;
+  `relock_unlisted_exact_partial`  completeness of the driver's classes: in universes without provides a resolution
+                                 whose class is `unlisted` round-trips exactly (this proof found class F09l);
+  `not_RelockSucceeds`           the full success statement is FALSE.
+  Not proved: the fixpoint in the presence of provides (virtuals); there the check relies on the round-trip oracle
+  evaluated on every Go output (classes F09a–F09l).
 -/
 import Apko.Proofs.Lemmas.Lock
 import Apko.Proofs.Lemmas.RelockInv
@@ -1259,19 +1270,172 @@ def cfg9j : Cfg := mkCfg [⟨[], "r-".toList, [j9z, j9b, j9c]⟩]
 def lock9j : List Text := ["b=1".toList, "c=1".toList, "z=1".toList]
 
 set_option maxRecDepth 100000 in
-/-- parsable dependency versions are needed, and NONE of the classes F09a–F09h applies (`relockClass = unlisted`):
+/-- parsable dependency versions are needed; none of the classes F09a–F09h applies — this is class F09l, found by the
+completeness proof `relock_unlisted_exact_partial` and replayed on the real code (findings/F09l.json):
 `==` is no operator, so `b==junk` reads as "b, any version" with the version text `junk` kept.  `[z]` resolves to the
 valid set {c, b, z}: when z's dependency is examined b is not selected yet and the candidate filter ignores the text.
 In the lock's order b is visited first and selected (it has a dependency of its own); z's dependency then takes the
 `selected` shortcut of `getPackageDependencies`, which parses the version text — error. -/
 theorem depAnyJunk_witness :
     installOf (resolve cfg9j ["z".toList] []) = some [j9c, j9b, j9z] ∧ validB cfg9j.u ["z".toList] [j9c, j9b, j9z] = true ∧
-    relockClass cfg9j.u ["z".toList] [j9c, j9b, j9z] = "unlisted" ∧
+    relockClass cfg9j.u ["z".toList] [j9c, j9b, j9z] = "F09l" ∧
     Ctx cfg9j [j9c, j9b, j9z] ∧ C02.IdsDistinct cfg9j.u ∧ hypNames [j9c, j9b, j9z] ∧ hypPv [j9c, j9b, j9z] ∧
     ¬ hypDepPv [j9c, j9b, j9z] ∧ hypNoConf [j9c, j9b, j9z] ∧ hypUniq cfg9j [j9c, j9b, j9z] ∧
     PinnedLock [j9c, j9b, j9z] lock9j ∧ installOf (resolve cfg9j lock9j []) = none := by
   refine ⟨by decide, by decide, by decide, ⟨by decide, by decide, by decide, by decide⟩, by decide, by decide, by decide,
     by decide, by decide, by decide, pinnedLock_of_lockB (by decide), by decide⟩
+
+/-! ### completeness of the driver's finding classes on the proved territory
+
+`relockClass` (Model/Lock.lean) is what the driver answers for a failing round trip; `unlisted` makes the check
+report a VIOLATION.  On the model, in universes without provides, a round trip whose class is `unlisted` cannot fail.
+(Proving this is what turned up class F09l, `depAnyJunk_witness`: the classes F09a–F09h were not complete.) -/
+
+/-- every lock entry reads back as (name, `=`, version, the pin `lockEntryPin` computes) — a fact about characters:
+apk names and versions contain none of `@ = < > ~` and do not start with `!` -/
+def EntriesReadBack (w : List Text) (S : List Pkg) : Prop :=
+  ∀ p ∈ S, (∀ x, p.name ++ ['='] ++ p.version ++ mget (origPinned w) p.name ≠ '!' :: x) ∧
+    parseConstraint (p.name ++ ['='] ++ p.version ++ mget (origPinned w) p.name) =
+      ⟨p.name, p.version, .eq, lockEntryPin w p.name⟩
+
+theorem mem_lockOf (w : List Text) (S : List Pkg) (hd : S.Pairwise (fun a b => a.name ≠ b.name)) (e : Text) :
+    e ∈ lockOf w S ↔ ∃ p ∈ S, e = p.name ++ ['='] ++ p.version ++ mget (origPinned w) p.name := by
+  unfold lockOf archList
+  rw [mem_sortS, List.mem_map, resolvedOf_eq]
+  obtain ⟨s1, _, _⟩ := rfold_spec S ⟨[], [], [], []⟩
+  constructor
+  · rintro ⟨n, hn, rfl⟩
+    rcases (s1 n).mp hn with h | ⟨p, hp, rfl⟩
+    · cases h
+    · exact ⟨p, hp, by simp [entry, resolvedOf_version [] S _ hd p hp]⟩
+  · rintro ⟨p, hp, rfl⟩
+    exact ⟨p.name, (s1 p.name).mpr (Or.inr ⟨p, hp, rfl⟩), by simp [entry, resolvedOf_version [] S _ hd p hp]⟩
+
+theorem names_of_pairwise {S : List Pkg} (hd : S.Pairwise (fun a b => a.name ≠ b.name)) : hypNames S := by
+  intro p hp q hq hn
+  induction S with
+  | nil => cases hp
+  | cons x xs ih =>
+    obtain ⟨hx, hxs⟩ := List.pairwise_cons.mp hd
+    rcases List.mem_cons.mp hp with rfl | h1
+    · rcases List.mem_cons.mp hq with rfl | h2
+      · rfl
+      · exact absurd hn (hx q h2)
+    · rcases List.mem_cons.mp hq with rfl | h2
+      · exact absurd hn.symm (hx p h1)
+      · exact ih hxs h1 h2
+
+/-- T `relock_unlisted_exact_partial` (completeness of F09a–F09h on the no-provides territory): for every successful
+resolution `r` of any world in a universe without provides whose ids are distinct, if the driver's classifier says
+`unlisted` — no pin lost, valid original without violated conflict, parsable versions, no install_if, unique
+(name, version), no `any`-operator dependency with unparsable version text (F09l) — then the lock `unify` emits for it re-resolves, to exactly
+`r.install`.  So on this territory a failing round trip outside the listed classes is impossible on the model; with
+Go = Impl (the correspondence) any such failure of the real code is reported as a violation. -/
+theorem relock_unlisted_exact_partial (c : Cfg) (w : List Text) (dq0 : List Nat) (r : Resolution)
+    (hres : resolve c w dq0 = .ok r) (hnoprov : ∀ q ∈ c.u.all, q.provides = []) (hids : C02.IdsDistinct c.u)
+    (hread : EntriesReadBack w r.install)
+    (hcls : relockClass c.u w r.install = "unlisted") :
+    ∃ r', resolve c (lockOf w r.install) [] = .ok r' ∧ sameMembers r'.install r.install := by
+  unfold relockClass at hcls
+  split at hcls; · exact absurd hcls (by decide)
+  next hpin =>
+  split at hcls; · exact absurd hcls (by decide)
+  next hinv =>
+  split at hcls; · exact absurd hcls (by decide)
+  next hpv =>
+  split at hcls; · exact absurd hcls (by decide)
+  split at hcls; · exact absurd hcls (by decide)
+  split at hcls; · exact absurd hcls (by decide)
+  next hiif =>
+  split at hcls; · exact absurd hcls (by decide)
+  next hdup =>
+  split at hcls; · exact absurd hcls (by decide)
+  next hjunk =>
+  -- unpack the classifier
+  simp only [invalidOriginal, Bool.or_eq_true, Bool.not_eq_true', not_or, Bool.not_eq_true] at hinv
+  obtain ⟨hvalid, hconf⟩ := hinv
+  have hvalid2 : validB c.u w r.install = true := by
+    cases hv : validB c.u w r.install with
+    | true => rfl
+    | false => rw [hv] at hvalid; exact absurd rfl hvalid
+  obtain ⟨_, hclosed, hpw, _⟩ := (C02.validB_iff c.u w r.install).mp hvalid2
+  have hsub := C02.resolve_subset c w dq0 r hres
+  have ctx : Ctx c r.install := by
+    refine ⟨hnoprov, ?_, hsub, hclosed⟩
+    intro q hq
+    simp only [hasInstallIf, List.any_eq_true, not_exists, not_and, Bool.not_eq_true', Bool.not_eq_false,
+      List.isEmpty_iff] at hiif
+    exact hiif q hq
+  have hnames := names_of_pairwise hpw
+  have hdep : hypDepPv r.install := by
+    intro p hp d hd hnc
+    by_cases hve : (parseConstraint d).version = []
+    · exact Or.inl hve
+    · right
+      by_cases hany : (parseConstraint d).dep = .any
+      · cases hpv2 : pv (parseConstraint d).version with
+        | some v => rfl
+        | none =>
+          exfalso
+          apply hjunk
+          unfold anyOpJunkVersion
+          rw [List.any_eq_true]; refine ⟨p, hp, ?_⟩
+          rw [List.any_eq_true]; refine ⟨d, hd, ?_⟩
+          simp [hnc, hany, hpv2, hve]
+      · obtain ⟨q, _, _, hv⟩ := closed_member ctx hp hd hnc
+        rcases hv with hv | ⟨req, _, hreq, _, _⟩
+        · exact absurd hv hany
+        · rw [hreq]; rfl
+  have sd : Side c r.install := by
+    refine ⟨hids, hnames, ?_, hdep, ?_⟩
+    · intro p hp
+      simp only [unparsableVersion, List.any_eq_true, not_exists, not_and, Bool.not_eq_true] at hpv
+      have := hpv p hp
+      cases h : pv p.version with
+      | none => rw [h] at this; cases this
+      | some v => rfl
+    · intro p hp d hd hc q hq
+      unfold isConflict at hc
+      split at hc
+      · next x =>
+        simp only [conflictViolated, Bool.or_eq_false_iff, List.any_eq_false] at hconf
+        have h1 := hconf.2 p hp
+        simp only [Bool.not_eq_true, List.any_eq_false] at h1
+        have h2 := h1 _ hd
+        simp only [Bool.not_eq_true, List.any_eq_false] at h2
+        have h3 := h2 q hq
+        simpa using h3
+      · cases hc
+  have huniq : hypUniq c r.install := by
+    intro x hx p hp hn hvm
+    simp only [dupNameVersion, List.any_eq_true, not_exists, not_and, Bool.and_eq_true, bne_iff_ne, ne_eq,
+      decide_eq_true_eq, Bool.or_eq_true] at hdup
+    have hidq : x.id = p.id := by
+      apply Classical.byContradiction
+      intro hne
+      have hd := hdup p hp x hx
+      unfold versionMatches at hvm
+      split at hvm
+      · next a b ha hb =>
+        simp only [ha, hb] at hd
+        exact hd ⟨hne, hn⟩ (Or.inr (by simpa [Dep.satisfies] using hvm))
+      · cases hvm
+    exact C02.eq_of_id_eq hids hx (hsub p hp) hidq
+  have hL : PinnedLock r.install (lockOf w r.install) := by
+    constructor
+    · intro e he
+      obtain ⟨p, hp, rfl⟩ := (mem_lockOf w r.install hpw e).mp he
+      refine ⟨(hread p hp).1, p, hp, _, (hread p hp).2, ?_⟩
+      simp only [pinLost, List.any_eq_true, not_exists, not_and, Bool.and_eq_true, Bool.not_eq_true', bne_iff_ne,
+        ne_eq, Decidable.not_not] at hpin
+      by_cases hpe : p.pin = []
+      · exact Or.inl hpe
+      · right
+        have h1 : p.pin.isEmpty = false := by simpa using hpe
+        exact (hpin p hp h1 p hp).symm
+    · intro p hp
+      exact ⟨_, (mem_lockOf w r.install hpw _).mpr ⟨p, hp, rfl⟩, _, (hread p hp).2⟩
+  exact relock_exact_partial c r.install _ ctx sd huniq hL
 
 /-! ### the hypotheses of `relock_fixpoint_partial` are satisfiable by a non-trivial value -/
 
@@ -1320,5 +1484,15 @@ example : Ctx cfgF [lib2, app2] ∧ Side cfgF [lib2, app2] ∧ hypUniq cfgF [lib
   refine ⟨⟨by decide, by decide, by decide, by decide⟩, side_of _ _ (by decide) (by decide) (by decide) (by decide) (by decide),
     by decide, pinnedLock_of_lockB (by decide), by decide,
     side_of _ _ (by decide) (by decide) (by decide) (by decide) (by decide), pinnedLock_of_lockB (by decide)⟩
+
+set_option maxRecDepth 100000 in
+/-- non-vacuity of `relock_unlisted_exact_partial`: its hypotheses hold for the resolution `SE` of `[a]` in `cfgE` -/
+example : installOf (resolve cfgE ["a".toList] []) = some SE ∧ (∀ q ∈ cfgE.u.all, q.provides = []) ∧
+    C02.IdsDistinct cfgE.u ∧ EntriesReadBack ["a".toList] SE ∧
+    relockClass cfgE.u ["a".toList] SE = "unlisted" := by
+  refine ⟨by decide, by decide, by decide, ?_, by decide⟩
+  intro p hp
+  simp only [SE, List.mem_cons, List.not_mem_nil, or_false] at hp
+  rcases hp with rfl | rfl | rfl <;> exact ⟨head_ne_bang_of (by decide), by decide⟩
 
 end Apko.C09
